@@ -343,7 +343,9 @@ pub fn allow_check<'a>(ctx: &mut Ctx, w: &'a World, nonce_s: &Scalar, amount: i6
     let book = ctx.book.clone();
     let proof = match d.real(&book) {
         Ok(p) => p,
-        Err(e) => { ctx.broken(&format!("pay proof does not decode: {}", e)); return None; }
+        // (a proof built under a degenerate draw — zero re-randomiser — contains the identity signature, which has no
+        // wire encoding: there is nothing to present to the merchant)
+        Err(e) => { if expect.is_none() { ctx.count("allow:proof-has-no-wire-encoding"); } else { ctx.broken(&format!("pay proof does not decode: {}", e)); } return None; }
     };
     let nonce: Nonce = match wire::de(&wire::enc_s(nonce_s)) {
         Ok(n) => n,
